@@ -749,6 +749,10 @@ class UnionUnmarshaller(AbstractUnmarshaller[UnionT], tp.Generic[UnionT]):
         Raises:
             ValueError: If `val` cannot be unmarshalled into any member type.
         """
+        # A one-shot iterator can only be read once: a member which rejects it half-way
+        #   through would leave the next member the remainder. Read it up front.
+        if isinstance(val, tp.Iterator):
+            val = [*val]
         for routine in self.ordered_routines:
             # Whichever error a member uses to reject the input (`ValueError`,
             #   `decimal.InvalidOperation`, `KeyError`, ...), try the next one.
